@@ -9,7 +9,7 @@ from ..worlds.mailbox import World
 
 ID = "C09"
 MODEL = "CLIENT"
-PROP_MODULES = ["WV.Props.C09"]
+PROP_MODULES = ["WV.Props.ClientSkel", "WV.Props.C09"]
 NATIVE_DECIDE_MODULES = ["WV.Proofs.ClientCert", "WV.Props.C09"]
 TRUSTED = c14.TRUSTED
 RULE = ("(a) guided schedules with frequent drops, client 0 compared step by step with the Lean model (every reconnect "
